@@ -641,6 +641,76 @@ def rule6(chk, db, cfgname, tab):
     chk.count('c20.r6.callback_wrappers', n)
 
 
+def rule7(chk, db, cfgname, tab):
+    chk.rule('C20.R7', 'a wrapper never moves out of an object the caller still owns: std::move is applied only to '
+             'locals of the wrapper, never to *from_c(parameter) (the C++ API it mirrors takes those by const '
+             'reference / copies them)')
+    defs = wrappers(db)
+    n = 0
+    for name, f in sorted(defs.items()):
+        pn = [p['n'] for p in f['params'] if not p['n'].startswith('mem')]
+        for b in f['blocks']:
+            for ev in b['ev']:
+                for x in T.walk(ev):
+                    if x.get('k') == 'call' and x.get('fn') in ('std::move', 'std::forward') and x.get('args'):
+                        n += 1
+                        p = param_of(x['args'][0], pn)
+                        ok = p is None
+                        if x.get('i') == ev.get('i') or x is ev:
+                            chk.obligation(ok, {'wrapper': name, 'line': ev.get('ln'),
+                                                'std::move of': T.pstr(x['args'][0])[:60], 'caller-owned': not ok})
+                        if not ok and (x is ev or x.get('i') is None or x.get('i') == ev.get('i')):
+                            chk.violation('C20.R7', f, 'moves from parameter %s' % p,
+                                          'std::move(*from_c(%s)) empties the object behind the caller\'s handle; '
+                                          'the handle stays valid for the caller and is now hollow' % p,
+                                          line=ev.get('ln'), cfg=cfgname)
+    chk.count('c20.r7.move_sites', n)
+
+
+def rule8(chk, db, cfgname, tab):
+    chk.rule('C20.R8', 'sibling wrappers X / X_seq hand different constant flags to their shared helper, and all _seq '
+             'variants of one helper hand the same constants (the sequential variant exists to keep user callbacks '
+             'on the calling thread)')
+    defs = wrappers(db)
+
+    def literals(f):
+        out = []
+        for b in f['blocks']:
+            for ev in b['ev']:
+                if ev.get('k') == 'call' and ev.get('fk') in db.functions and \
+                        db.functions[ev['fk']]['file'].startswith('bindings/c/') and \
+                        not db.functions[ev['fk']].get('externC') and T.short(ev['fn']) not in ('to_c', 'from_c'):
+                    lits = tuple((i, T.strip(a).get('v')) for i, a in enumerate(ev.get('args', []))
+                                 if T.strip(a).get('k') in ('bool', 'int'))
+                    out.append((T.short(ev['fn']), lits))
+        return out
+    groups = {}
+    n = 0
+    for name, f in sorted(defs.items()):
+        if not name.endswith('_seq') or name[:-4] not in defs:
+            continue
+        a, b2 = literals(f), literals(defs[name[:-4]])
+        if not a or not b2:
+            continue
+        n += 1
+        ok = a != b2 and [x[0] for x in a] == [x[0] for x in b2]
+        chk.obligation(ok, {'pair': [name[:-4], name], 'constants': [b2, a]})
+        if not ok:
+            chk.violation('C20.R8', f, 'same constants as %s' % name[:-4],
+                          '%s passes the same constant flags %s to its helper as its non-sequential sibling' %
+                          (name, a), cfg=cfgname)
+        for h, lits in a:
+            groups.setdefault(h, {})[name] = lits
+    for h, m in groups.items():
+        vals = set(m.values())
+        ok = len(vals) == 1
+        chk.obligation(ok, {'helper': h, '_seq variants': sorted(m), 'constants': sorted(map(str, vals))})
+        if not ok:
+            chk.violation('C20.R8', h, '_seq variants disagree', 'the sequential wrappers of helper %s pass different '
+                          'constants: %s' % (h, {k: str(v) for k, v in m.items()}), cfg=cfgname)
+    chk.count('c20.r8.seq_pairs', n)
+
+
 def main(chk, tier):
     import db as D
     configs = ['seq'] if tier == 'quick' else ['seq', 'par']
@@ -656,6 +726,8 @@ def main(chk, tier):
         rule4(chk, db, cfgname, tab)
         rule5(chk, db, cfgname, tab)
         rule6(chk, db, cfgname, tab)
+        rule7(chk, db, cfgname, tab)
+        rule8(chk, db, cfgname, tab)
     n = len(configs)
     chk.floor('c20.r1.declarations', 280 * n)
     chk.floor('c20.r2.wrappers', 100 * n)
@@ -664,6 +736,7 @@ def main(chk, tier):
     chk.floor('c20.r5.opaque_types', 12 * n)
     chk.floor('c20.r5.mem_parameters', 50 * n)
     chk.floor('c20.r6.callback_wrappers', 6 * n)
+    chk.floor('c20.r8.seq_pairs', 2 * n)
     return chk.finish(
         'Per-wrapper conformance of all extern "C" functions of bindings/c against manifoldc.h and the C++ API, over '
         'the type-resolved program database: declaration/definition coverage, the member each wrapper reaches, '
